@@ -21,6 +21,23 @@ FINDINGS = {
 
 
 def spec_violated(rep):
+    if rep.get("correspondence") == "C15s":
+        # the op lines ARE the implementation's event log: a session holds from its `acq` until its
+        # own `pre` (announcement that it is about to release); no acquisition while another holds
+        holders = []
+        for op in rep["ops"]:
+            f = op.split()
+            if f and f[0] == "case":
+                holders = []
+            elif f and f[0] == "acq":
+                if holders:
+                    return "the real guard granted ID %s while the session with ID %s still held it (event log)" % (f[1], holders[0])
+                holders.append(f[1])
+            elif f and f[0] == "pre" and f[2] in holders:
+                holders.remove(f[2])
+            elif f and f[0] == "hang":
+                return "a parked waiter was never woken (stress run did not terminate)"
+        return None
     # Spec oracle on implementation replies: never more than one believing holder
     for op, line in zip(rep["ops"], rep["impl"]):
         if " h=" in line:
@@ -40,6 +57,12 @@ def run(ctx):
         args = ["resetsIdOnEmpty=" + facts.get("resetsIdOnEmpty", "unknown")]
         c = K.correspondence(ctx, "C15", args)
         corrs.append(("C15", args, c))
+        # genuinely concurrent run of the real guard; its event log must be a trace of the model
+        targs = args + ["mode=trace"]
+        ct = K.correspondence(ctx, "C15s", targs, drv_domain="C15")
+        corrs.append(("C15s", targs, ct))
+        ctx.cov["trace_inclusion"] = {"domain": "C15s", "log_lines": len(ct.ops), "rounds": len(ct.cases),
+                                      "lines_rejected_by_model": len(ct.mismatch), "event_histogram": ct.op_hist}
     else:
         ctx.violation("harness does not build against /repo", {"correspondence": "C15", "log": getattr(ctx, "hx_log", "")[-2000:]},
                       tag="build", found_input=False)
